@@ -66,6 +66,12 @@ def meta_rules(facts, rep):
         for fld in ("crc32", "compressed_size", "uncompressed_size"):
             v = norm(exs.operand(f2[fld], (b2, si2)))
             good = v[0] == "field" and v[2] == fld and any(x[0] == "call" and x[1].endswith("unwrap_or") for x in walk(v)) and "raw_values" in show(v)
+            if not good:
+                # the same default spelled as a match: Some(raw) => raw.<fld>, None => 0
+                al = alts(v)
+                fields = [a for a in al if a[0] == "field" and a[2] == fld and "raw_values" in show(a) and not any(x[0] == "call" for x in walk(a))]
+                zeros = [a for a in al if a[0] == "const" and a[2] == 0]
+                good = len(fields) == 1 and len(fields) + len(zeros) == len(al) and len(zeros) <= 1
             ok &= rep.check(good, rule, "start_entry:%s" % fld, where(st, s2["span"]), "%s initialised from raw_values (zero for ordinary entries)" % fld, "start_entry initialises %s from %s" % (fld, show(v)[:80]))
     rep.floor(rule, 11)
     return ok
@@ -152,7 +158,16 @@ def name_rules(facts, rep):
         nm = norm(ex.operand(cs[0][1]["args"][2], (cs[0][0], None)))
         fl = norm(ex.operand(cs[0][1]["args"][1], (cs[0][0], None)))
         good = any(x[0] == "call" and x[1].endswith("ZipFile::<'a>::name") for x in walk(nm)) and fl[0] == "arg"
-    return rep.check(good, rule, "raw_copy_file-keeps-name", where(f, f.span), "raw_copy_file(file) = raw_copy_file_rename(file, file.name())", "raw_copy_file passes a different name/entry")
+    ok = rep.check(good, rule, "raw_copy_file-keeps-name", where(f, f.span), "raw_copy_file(file) = raw_copy_file_rename(file, file.name())", "raw_copy_file passes a different name/entry")
+    # ... for EVERY entry: no path of raw_copy_file opens the entry any other way (a "directories carry no data, add them the regular
+    # way" special case replaces a slash-named entry that owns a stream by an empty stored one)
+    from engine.paths import paths as _paths
+    other = sorted({t_["callee"].split("::")[-1] for _, t_ in f.calls() if re.search(ZW, t_["callee"] + "$") and not t_["callee"].endswith("raw_copy_file_rename")})
+    allp = [p_ for p_ in _paths(f, max_paths=5000) if p_["end"] == "return"]
+    thru = all(any(e_[1].endswith("raw_copy_file_rename") for e_ in p_["effects"]) for p_ in allp if not any(a_ != "#iter" and "Try::branch" in a_ and v_ == 1 for a_, v_ in p_["decisions"]))
+    ok &= rep.check(not other and thru and bool(allp), rule, "raw_copy_file-only-delegates", where(f, f.span), "every path of raw_copy_file goes through raw_copy_file_rename, no other opener",
+                    "raw_copy_file also calls %s / has a path that does not copy raw" % other)
+    return ok
 
 
 def run(ctx, rep):
